@@ -1,0 +1,42 @@
+//go:build verif
+// +build verif
+
+package txpool
+
+import "github.com/LemoFoundationLtd/lemochain-core/chain/types"
+
+// VerifPoolEvent is one linearised pool operation, emitted while pool.RW is still held.
+type VerifPoolEvent struct {
+	Seq    uint64
+	Op     string
+	Txs    types.Transactions // arguments (AddTx, AddTxs, DelTxs)
+	Added  int                // AddTx/AddTxs: number of slots appended
+	Time   uint32             // GetTxs
+	Size   int                // GetTxs
+	Result types.Transactions // GetTxs
+	Slots  int                // len(pool.txs) after the operation
+	Index  int                // len(pool.hashIndexMap) after the operation
+	Cap    int
+}
+
+// VerifPoolHook receives the events of every pool (conformance harness only).
+var VerifPoolHook func(pool *TxPool, ev VerifPoolEvent)
+
+var verifPoolSeq uint64
+
+// verifTrace is deferred right after `defer pool.RW.Unlock()`, so it runs after the state change
+// and before the lock is released; preLen was evaluated when the defer statement executed.
+func verifTrace(pool *TxPool, op string, txs types.Transactions, preLen int, time uint32, size int, result *[]*types.Transaction) {
+	if VerifPoolHook == nil {
+		return
+	}
+	verifPoolSeq++ // protected by pool.RW of the traced pool (one traced pool per process)
+	ev := VerifPoolEvent{Seq: verifPoolSeq, Op: op, Txs: txs, Time: time, Size: size, Slots: len(pool.txs), Index: len(pool.hashIndexMap), Cap: pool.cap}
+	if op == "AddTx" || op == "AddTxs" {
+		ev.Added = len(pool.txs) - preLen
+	}
+	if result != nil {
+		ev.Result = append(types.Transactions(nil), (*result)...)
+	}
+	VerifPoolHook(pool, ev)
+}
